@@ -77,7 +77,12 @@ RULE = (
     "construction histories: one evaluation = one history of constructions by every route (spelling, degree / size, exact / rounded up, NumPy "
     "integers, cache on / off), in-place edits and setter assignments on grids handed out earlier, uses of the public methods in any order, "
     "every construction and every unedited grid compared with the .npz file; the same in fresh interpreters starting with cache=False; requests "
-    "at both ends of every table; the carried tables: all monomials in exact integer arithmetic at 1e-13). "
+    "at both ends of every table; the carried tables: all monomials in exact integer arithmetic at 1e-13; "
+    "round 4: EVERY file every run built by degree and by size and compared with the content of its .npz file (points exactly, weights up to "
+    "the 4 pi of the normalised families); every documented argument combination (positional / keyword / None / explicit defaults, degree and "
+    "size together) on the smallest grids of every method; refused calls (constructor and methods) inside the histories: no trace; integrate of "
+    "complex / single / long double / integer values of the complex harmonics; the library's harmonics on shipped nodes with randomly "
+    "modulated weights, row by row against the oracle, above degree 150 in the thorough tier). "
     "non-trivial = advertised degree >= 2"
 )
 TRUSTED_BASE = [
@@ -102,6 +107,34 @@ SPHERE_TOL = 1e-12     # | |p| - 1 |
 FOUR_PI = 4 * math.pi
 
 _REPORTS = {}          # (method, degree) -> report dict, shared by corr and oracle within one run
+
+
+def _library_raised(e):
+    """did the exception come out of the library (innermost frame inside src/grid, not its tests)?"""
+    import traceback
+    tb = traceback.extract_tb(e.__traceback__)
+    return bool(tb) and str(SRC) in tb[-1].filename and "/tests/" not in tb[-1].filename
+
+
+def _parts(ctx: Ctx, stage, parts):
+    """Round 4: the stage runs as independent parts.  An exception ends only the part it occurs in: when the library raised
+    on the (legitimate) inputs of that part it is a failing input of the property (`angular:<part>:raises`); anything else
+    (driver, translator, the harness itself) is kept, the remaining parts still run, and the first such exception is raised
+    again at the end, where the runner reports it as a broken tie."""
+    import traceback
+    first = None
+    for name, fn in parts:
+        try:
+            fn()
+        except Exception as e:
+            if _library_raised(e) and not isinstance(e, AssertionError):
+                ctx.fail("oracle", f"angular:{name}:raises", f"{stage} part `{name}`: the library raised {type(e).__name__}: {str(e)[:300]} on an admissible input",
+                         witness={"part": name, "traceback": traceback.format_exc()[-1800:]})
+            elif first is None:
+                first = e
+                ctx.info(f"{stage} part `{name}` raised {type(e).__name__}: {str(e)[:200]} (the other parts were still run)")
+    if first is not None:
+        raise first
 
 
 def all_files(ang):
@@ -139,6 +172,18 @@ def file_line(op, points, weights, degree):
 
 
 def _run_one(job):
+    """One file; an exception (the loader rejecting the file, a dead driver) is part of the report of that file and does not
+    take the other files down."""
+    try:
+        return _run_one_raw(job)
+    except Exception as e:
+        import traceback
+        return {"method": job[0], "degree": job[1], "size": job[2], "orders": job[3] if len(job) > 3 else None,
+                "answer": "", "error": f"{type(e).__name__}: {str(e)[:300]}", "library": _library_raised(e),
+                "traceback": traceback.format_exc()[-1500:]}
+
+
+def _run_one_raw(job):
     """job = (method, degree, size[, orders]) -> report via a driver process of its own; with `orders` only the screen
     restricted to those orders |m| (and m = 0) is evaluated."""
     ang = importlib.import_module("grid.angular")
@@ -286,10 +331,19 @@ def _corr_carried(ctx: Ctx, ang):
 def corr(ctx: Ctx):
     ang = importlib.import_module("grid.angular")
     ut = importlib.import_module("grid.utils")
-    from ..common import f2b
     files = all_files(ang)
-    _corr_carried(ctx, ang)
+    _parts(ctx, "corr", [
+        ("carried-tables", lambda: _corr_carried(ctx, ang)),
+        ("moments-small-files", lambda: _corr_moments(ctx, ang, ut, files)),
+        ("moments-synthetic-high-degree", lambda: _corr_synthetic(ctx, ut)),
+        ("malformed-lines", lambda: _corr_malformed(ctx)),
+        ("library-vs-oracle", lambda: _corr_lib_vs_oracle(ctx, ang, ut, files)),
+        ("library-vs-oracle-above-150", lambda: _corr_lib_high(ctx, ang, ut, files)),
+    ])
 
+
+def _corr_moments(ctx: Ctx, ang, ut, files):
+    from ..common import f2b
     # (1) array oracle vs generic ylmNorm / ylmCode (Lean) vs library, on whole small files: full moment vectors
     small = [f for f in files if f[2] <= 120 and f[1] <= 20]
     for m, d, s in ctx.rng.sample(small, min(len(small), ctx.n(10, 40))) + [("lebedev", 3, 6), ("ahrens_beylkin", 1, 2) if ("ahrens_beylkin", 1, 2) in files else small[0]]:
@@ -310,6 +364,10 @@ def corr(ctx: Ctx):
                 i = int(np.argmax(np.abs(fast - other))) if fast is not None and fast.shape == other.shape else -1
                 ctx.fail("corr", f"moments:{name}", f"{m}_{d}_{s}: moment row {i}: array oracle {None if fast is None else fast[i]!r}, {name} {other[i] if i >= 0 else None!r}",
                          witness={"method": m, "degree": d, "size": s, "row": i})
+
+
+def _corr_synthetic(ctx: Ctx, ut):
+    from ..common import f2b
     # (1b) high degree: the array oracle on a synthetic weighted point set (incl. both poles and an equator point) against the
     #      generic ylmNorm, all (L+1)^2 moments; and ylmNorm against the 50+-digit definition on sampled rows up to l = 325
     import mpmath as mp
@@ -343,12 +401,18 @@ def corr(ctx: Ctx):
                 if not abs(got - want) <= 1e-11:
                     ctx.fail("corr", "ylmNorm:definition", f"ylmNorm({L}, theta={t!r}, phi={p!r}) row (l={l}, m={m}) = {got!r}, definition ({mp.mp.dps} digits) {want!r}",
                              witness={"l_max": L, "theta": t, "phi": p, "l": l, "m": m, "got": got, "want": want})
+
+
+def _corr_malformed(ctx: Ctx):
     # malformed lines
     for bad, want in (("C02.file 2 3 0 0 0 2 0 0", "value-error"), ("C02.file 2 3 0 0", "bad-op"), ("C02.file x 0 0", "bad-op")):
         ctx.count(["malformed", bad], nontrivial=False, tag="malformed")
         if driver_batch([bad])[0] != want:
             ctx.fail("corr", "file:malformed", f"driver answered {driver_batch([bad])[0]} to {bad!r}, expected {want}")
 
+
+
+def _corr_lib_vs_oracle(ctx: Ctx, ang, ut, files):
     # (2) per-degree errors: oracle report vs the library integrating its own harmonics, files of moderate degree
     sel = select(ctx, files, ctx.thorough)
     dmax = 75 if ctx.thorough else 40
@@ -373,6 +437,51 @@ def corr(ctx: Ctx):
                 or not abs(rep["dev"] - rep["impl_dev"]) <= 4e-16:
             ctx.fail("corr", f"report:{m}", f"{m}_{d}_{s}: oracle size/sum/deviation {rep['n']}, {rep['sumw']!r}, {rep['dev']!r} vs NumPy "
                      f"{g.size}, {rep['impl_sumw']!r}, {rep['impl_dev']!r}")
+
+
+
+def _lib_vs_oracle_modulated(ctx: Ctx, ang, ut, m, d, s, tag, chunk=4000, nodes=None):
+    """On an exact rule every moment of degree l > 0 is ~0 whatever the harmonics are, so the comparison of the integration
+    errors says little about the harmonics the library integrates.  Here the weights of the shipped grid are multiplied by
+    random factors in [0.5, 2]: every moment sum_i w_i f_i Y_lm(p_i) is then O(0.1), and the library's harmonics on the shipped
+    nodes (poles and axes included) are compared row by row with the Lean oracle's (driver op C02.moments)."""
+    from types import SimpleNamespace
+    g = load(ang, m, d)
+    if nodes is not None and g.size > nodes:       # a subset of the shipped nodes (the first 26 - for Lebedev the axis nodes - always)
+        idx = np.sort(np.concatenate([np.arange(26), 26 + ctx.np_rng.choice(g.size - 26, size=nodes - 26, replace=False)]))
+        g = SimpleNamespace(points=g.points[idx], weights=g.weights[idx], size=len(idx))
+    w2 = g.weights * ctx.np_rng.uniform(0.5, 2.0, size=g.size)
+    ans = driver_batch([file_line("C02.moments", g.points, w2, d)], timeout=7200)[0]
+    fast = np.array(Tokens(ans[3:]).fvec()) if ans.startswith("ok ") else None
+    lib = np.asarray(lib_moments(ut, SimpleNamespace(points=g.points, weights=w2, size=g.size), d, chunk=chunk), dtype=float)
+    ctx.count([tag, m, d, s], nontrivial=True, tag=f"{tag}:{m}")
+    tol = 1e-14 * (d + 1) * float(np.sum(np.abs(w2)))          # measured on the pinned tree: <= 1e-3 of this, degrees 8 .. 175
+    if fast is None or fast.shape != lib.shape or not np.all(np.abs(fast - lib) <= tol):
+        i = int(np.nanargmax(np.where(np.isnan(fast - lib), np.inf, np.abs(fast - lib)))) if fast is not None and fast.shape == lib.shape else -1
+        l = int(math.isqrt(i)) if i >= 0 else -1
+        ctx.fail("corr", f"lib-vs-oracle-modulated:{m}", f"{m}_{d}_{s} with randomly modulated weights: moment row {i} (l = {l}): library harmonics {lib[i] if i >= 0 else None!r}, "
+                 f"Lean oracle {None if fast is None or i < 0 else fast[i]!r} (tolerance {tol:.1e})",
+                 witness={"method": m, "degree": d, "size": s, "row": i, "l": l, "kind": "library-harmonics"})
+    return None if fast is None or fast.shape != lib.shape else float(np.nanmax(np.abs(fast - lib)) / tol)
+
+
+def _corr_lib_high(ctx: Ctx, ang, ut, files):
+    """class 19 (round 4): the library's own harmonics where they are extreme - degrees above 150, where the running
+    normalisation factor sqrt((l+m)!/(l-m)!) leaves the double range and the routine works in long double - evaluated on the
+    nodes of a shipped grid of such a degree (thorough tier, about 40 s), and on three files of moderate degree in every run."""
+    mod = [f for f in files if 8 <= f[1] <= 45 and f[2] <= 2500]
+    worst = 0.0
+    for m, d, s in ctx.rng.sample(mod, 3):
+        worst = max(worst, _lib_vs_oracle_modulated(ctx, ang, ut, m, d, s, "lib-vs-oracle-modulated") or 0.0)
+    # above 150 on 600 of the shipped nodes, every run (about 3 s); thorough tier: a whole file, and degree 325 on 600 nodes
+    m, d, s = ctx.rng.choice([f for f in files if 151 <= f[1] <= 260])
+    worst = max(worst, _lib_vs_oracle_modulated(ctx, ang, ut, m, d, s, "lib-vs-oracle-modulated-above-150", chunk=150, nodes=600) or 0.0)
+    if ctx.thorough:
+        worst = max(worst, _lib_vs_oracle_modulated(ctx, ang, ut, "spherical", 325, 52978, "lib-vs-oracle-modulated-above-150", chunk=100, nodes=600) or 0.0)
+        cand = sorted((f for f in files if 151 <= f[1] <= 175), key=lambda f: f[2])[:12]
+        m, d, s = ctx.rng.choice(cand)
+        worst = max(worst, _lib_vs_oracle_modulated(ctx, ang, ut, m, d, s, "lib-vs-oracle-modulated-above-150", chunk=1000) or 0.0)
+    ctx.extra["modulated_moments_worst_over_tolerance"] = round(worst, 4)
 
 
 # --------------------------------------------------------------------------------------
@@ -529,6 +638,11 @@ def rejects(**kw):
     except ValueError:
         return
     raise AssertionError(f'AngularGrid(**{{kw}}) did not raise ValueError')
+def attempt(f):          # a call that is expected to be refused (class 18): whatever it does, it must leave no trace
+    try:
+        f()
+    except Exception:
+        pass
 def clear_caches():
     for k, v in vars(A).items():
         if k.endswith('_CACHE') and isinstance(v, dict):
@@ -561,6 +675,42 @@ USE = [             # public methods / accessors of one object, any order (class
     "_ = {g}.moments(2, np.zeros((1, 3)), np.ones({g}.size), type_mom='cartesian')",
     "_ = {g}.moments(1, np.array([[0.0, 0.0, 1.0], [1.0, 0.0, 0.0]]), {g}.points[:, 1] ** 2, type_mom='pure')",
 ]
+REFUSED_CTOR = [    # class 18: constructor calls that end in an exception; `{m}` a method name, `{d}` a degree it has
+    "attempt(lambda: AngularGrid(degree=10 ** 6, method={m!r}))",
+    "attempt(lambda: AngularGrid(size=10 ** 9, method={m!r}))",
+    "attempt(lambda: AngularGrid(degree=-1, method={m!r}))",
+    "attempt(lambda: AngularGrid(size=-3, method={m!r}, cache=False))",
+    "attempt(lambda: AngularGrid(degree={d}.5, method={m!r}))",
+    "attempt(lambda: AngularGrid(degree='{d}', method={m!r}))",
+    "attempt(lambda: AngularGrid(degree=[{d}], method={m!r}))",
+    "attempt(lambda: AngularGrid(degree=None, method={m!r}))",
+    "attempt(lambda: AngularGrid(degree=None, size=None, method={m!r}, cache=False))",
+    "attempt(lambda: AngularGrid(degree={d}, method={m!r} + 'x'))",
+    "attempt(lambda: AngularGrid(degree={d}, method=None))",
+    "attempt(lambda: AngularGrid(degree={d}, method=3))",
+    "attempt(lambda: AngularGrid({d}, 6, method={m!r}))",
+    "attempt(lambda: AngularGrid(degree={d}, method={m!r}, cache=True, store=True))",
+    "attempt(lambda: AngularGrid(degree={d}, size=np.array([6, 26]), method={m!r}))",
+    "attempt(lambda: AngularGrid._load_precomputed_angular_grid({d}, 7, {m!r}))",
+    "attempt(lambda: AngularGrid._get_degree_and_size(degree=None, size=None, method={m!r}))",
+    "attempt(lambda: AngularGrid.convert_angular_sizes_to_degrees(np.array([6, 10 ** 9]), {m!r}))",
+]
+REFUSED_USE = [     # class 18: refused calls on a grid object
+    "attempt(lambda: {g}.integrate())",
+    "attempt(lambda: {g}.integrate(np.ones({g}.size + 1)))",
+    "attempt(lambda: {g}.integrate([1.0] * {g}.size))",
+    "attempt(lambda: {g}.get_localgrid(np.zeros(2), 1.0))",
+    "attempt(lambda: {g}.get_localgrid(np.zeros(3), -1.0))",
+    "attempt(lambda: {g}.get_localgrid(np.zeros(3), np.nan))",
+    "attempt(lambda: setattr({g}, 'points', np.zeros(({g}.size + 1, 3))))",
+    "attempt(lambda: setattr({g}, 'weights', np.zeros({g}.size + 1)))",
+    "attempt(lambda: setattr({g}, 'degree', 3))",
+    "attempt(lambda: {g}[0])",
+    "attempt(lambda: {g}[1:3])",
+    "attempt(lambda: {g}.moments(2, np.zeros((1, 2)), np.ones({g}.size), type_mom='cartesian'))",
+    "attempt(lambda: {g}.moments(2, np.zeros((1, 3)), np.ones({g}.size + 1), type_mom='pure'))",
+    "attempt(lambda: {g}.moments(1, np.zeros((1, 3)), np.ones({g}.size), type_mom='nope'))",
+]
 BROKEN_FILES = {("ahrens_beylkin", 39), ("ahrens_beylkin", 127)}
 
 
@@ -586,7 +736,16 @@ def _request(ctx, tab, d, s):
     below_d = max([k for k in tab if k < d], default=-1)
     below_s = max([v for v in tab.values() if v < s], default=-1)
     kind = ctx.rng.choice(["degree", "degree", "size", "size", "degree-up", "size-up", "degree-just-above-previous", "size-just-above-previous",
-                           "np-degree", "np-size", "positional"])
+                           "np-degree", "np-size", "positional", "both", "positional-and-size", "none-and-size", "degree-and-none"])
+    if kind == "both":                     # class 15: both alternatives at once - the constructor documents that the size wins
+        other = ctx.rng.choice([k for k in tab if k != d] or [d])
+        return f"degree={other}, size={s}"
+    if kind == "positional-and-size":
+        return f"{ctx.rng.choice(list(tab))}, size={ctx.rng.randint(below_s + 1, s)}"
+    if kind == "none-and-size":
+        return ctx.rng.choice([f"None, size={s}", f"degree=None, size={s}"])
+    if kind == "degree-and-none":
+        return ctx.rng.choice([f"degree={d}, size=None", f"{d}, size=None"])
     if kind == "degree":
         return f"degree={d}"
     if kind == "size":
@@ -634,7 +793,13 @@ def _make_history(ctx, tabs, nsteps, pool):
     for step in range(nsteps):
         r = ctx.rng.random()
         just = None
-        if r < 0.5 or not live:
+        if r < 0.2:                       # class 18: a call that ends in an exception, on the constructor or on a live grid
+            if live and ctx.rng.random() < 0.5:
+                lines.append(ctx.rng.choice(REFUSED_USE).format(g=ctx.rng.choice(live)[0]))
+            else:
+                m, d = ctx.rng.choice(pool["same"])
+                lines.append(ctx.rng.choice(REFUSED_CTOR).format(m=m, d=d))
+        elif r < 0.6 or not live:
             m, d = ctx.rng.choice(pool["same"] if ctx.rng.random() < 0.8 else pool["other"])   # mostly one degree, under every method that has it
             s = tabs[m][d]
             req = _request(ctx, tabs[m], d, s)
@@ -645,7 +810,7 @@ def _make_history(ctx, tabs, nsteps, pool):
             lines.append(f"check({var}, {m!r}, {d}, {s}, 'step {step + 1}: {var} as constructed')")
             live.append([var, m, d, s, True])
             just = var
-        elif r < 0.75:
+        elif r < 0.8:
             g = live[-1] if ctx.rng.random() < 0.5 else ctx.rng.choice(live)    # mostly the grid handed out last
             lines.append(ctx.rng.choice(DAMAGE).format(g=g[0]))
             g[4] = False
@@ -697,7 +862,10 @@ def _oracle_histories(ctx: Ctx, ang):
         tab = tabs[m]
         dmax, smax = max(tab), max(tab.values())
         dmin = min(tab)
-        reqs = [("degree=0", 0, None), ("degree=1", 1, None), (f"degree={dmin}", dmin, None), ("size=0", None, 0), ("size=1", None, 1),
+        reqs = [("degree=0", 0, None), ("degree=1", 1, None), ("degree=2", 2, None), ("degree=3", 3, None), (f"degree={dmin}", dmin, None),
+                ("size=0", None, 0), ("size=1", None, 1), ("size=2", None, 2), ("size=3", None, 3), ("size=4", None, 4), ("size=5", None, 5),
+                ("0", 0, None), ("1, cache=True", 1, None), ("degree=50, size=2", None, 2), ("None, size=4", None, 4), ("degree=np.int64(1)", 1, None),
+                ("size=np.int16(3)", None, 3),
                 (f"size={tab[dmin]}", None, tab[dmin]), (f"size={tab[dmin] + 1}", None, tab[dmin] + 1),
                 (f"degree={dmax}", dmax, None), (f"degree={dmax - 1}", dmax - 1, None), (f"size={smax}", None, smax), (f"size={smax - 1}", None, smax - 1)]
         ctx.rng.shuffle(reqs)
@@ -706,7 +874,7 @@ def _oracle_histories(ctx: Ctx, ang):
             d, s = _resolve(tab, degree=dq, size=sq)
             if (m, d) in BROKEN_FILES:
                 continue
-            cache = ctx.rng.choice(["", ", cache=False"])
+            cache = "" if "cache" in req else ctx.rng.choice(["", ", cache=False"])
             lines.append(f"e{i} = AngularGrid({req}, method={m!r}{cache})")
             label = f"AngularGrid({req}, method={m!r}{cache})"
             lines.append(f"check(e{i}, {m!r}, {d}, {s}, {label!r})")
@@ -732,7 +900,8 @@ def _oracle_fresh_process(ctx: Ctx, ang):
                                 f"degree={d}", f"degree={d}"])
         spell = ctx.rng.choice([m, m.upper(), m.title()])
         c0 = ctx.rng.choice(["False", "False", "False", "True"])
-        lines = [f"f0 = AngularGrid({first}, method={spell!r}, cache={c0})", f"check(f0, {m!r}, {d}, {s}, 'first construction of the process')"]
+        lines = [ctx.rng.choice(REFUSED_CTOR).format(m=m, d=d)] if ctx.rng.random() < 0.4 else []
+        lines += [f"f0 = AngularGrid({first}, method={spell!r}, cache={c0})", f"check(f0, {m!r}, {d}, {s}, 'first construction of the process')"]
         lines += _make_history(ctx, tabs, ctx.rng.randint(2, 5), {"same": [(m, d)] + [(mm, d) for mm in METHODS if mm != m and (mm, d) in small],
                                                                    "other": ctx.rng.sample(small, 1)})
         lines = [ln for ln in lines if ln != "clear_caches()"]
@@ -834,11 +1003,209 @@ def _oracle_carried_exact(ctx: Ctx, ang):
                                                     norm="Fraction(1)" if kind == "Unit" else f"Fraction({FOUR_PI_Q[0]}, {FOUR_PI_Q[1]})"))
 
 
+EVERY_FILE_SNIPPET = """import os, math, warnings; warnings.filterwarnings('ignore')
+import numpy as np, grid
+from grid.angular import AngularGrid
+m, d, s, folder = {m!r}, {d}, {s}, {folder!r}
+with np.load(os.path.join(os.path.dirname(grid.__file__), 'data', folder, f'{{m}}_{{d}}_{{s}}.npz')) as z:
+    P, W = np.array(z['points'], dtype=float), np.array(z['weights'], dtype=float)
+if W.size == 1:
+    W = np.full(len(P), float(W[0]))
+if m in ('lebedev', 'spherical'):
+    W = W * (4 * math.pi)
+g = AngularGrid({req}, method=m, cache={cache})
+assert g.degree == d and g.size == s == len(P) and g.points.shape == (s, 3) and g.weights.shape == (s,), (g.degree, g.size, g.points.shape, g.weights.shape)
+assert np.array_equal(g.points, P), 'points differ from the file'
+assert np.allclose(g.weights, W, rtol=1e-15, atol=0.0), f'weights differ from the file (x 4 pi for the normalised families): sum {{g.weights.sum()!r}}, file {{W.sum()!r}}'
+"""
+
+
+def _oracle_every_file(ctx: Ctx, ang):
+    """Round 4 (implementation only, no driver, no translator; 450 files in about 2 s): EVERY file every run - the grid built
+    by degree (cache off) and by size (cache on, then once more from the cache) is the content of the .npz file: the points
+    exactly, the weights up to the 4 pi of the two normalised families (1e-15 relative), the advertised size, three columns,
+    | |p| - 1 | <= 1e-12 and, apart from the two files listed as findings, sum w = 4 pi to 1e-9."""
+    import warnings
+    files = all_files(ang)
+    for m, d, s in files:
+        key = f"angular:{m}_{d}_{s}"
+        ctx.count(["every-file", m, d, s], nontrivial=d >= 2, tag="every-file:" + m)
+        with np.load(SRC / "data" / DIRS[m] / f"{m}_{d}_{s}.npz") as z:
+            P, W = np.array(z["points"], dtype=float), np.array(z["weights"], dtype=float)
+        if W.size == 1:
+            W = np.full(len(P), float(W[0]))
+        if m in ("lebedev", "spherical"):
+            W = W * FOUR_PI
+        for req, cache in ((f"degree={d}", False), (f"size={s}", True), (f"degree={d}", True)):
+            try:
+                with warnings.catch_warnings():
+                    warnings.simplefilter("ignore")
+                    g = ang.AngularGrid(**{req.split("=")[0]: int(req.split("=")[1])}, method=m, cache=cache)
+                what = None
+                if not (g.degree == d and g.size == s == len(P) and g.points.shape == (s, 3) and g.weights.shape == (s,)):
+                    what = f"degree/size/shapes {g.degree}/{g.size}/{g.points.shape}/{g.weights.shape}, the file holds {len(P)} points, advertised {d}/{s}"
+                elif not np.array_equal(g.points, P):
+                    what = f"the points differ from the file (max difference {float(np.abs(g.points - P).max())!r})"
+                elif not np.allclose(g.weights, W, rtol=1e-15, atol=0.0):
+                    what = (f"the weights differ from the file{' x 4 pi' if m in ('lebedev', 'spherical') else ''}: sum {float(g.weights.sum())!r}, "
+                            f"file {float(W.sum())!r}, max difference {float(np.abs(g.weights - W).max())!r}")
+                elif not float(np.abs(np.linalg.norm(g.points, axis=1) - 1.0).max()) <= SPHERE_TOL:
+                    what = f"points off the unit sphere by {float(np.abs(np.linalg.norm(g.points, axis=1) - 1.0).max()):.3e}"
+                elif not abs(float(g.weights.sum()) - FOUR_PI) <= 1e-9:
+                    what = f"weights sum to {float(g.weights.sum())!r}, not 4 pi"
+            except Exception as e:
+                what = f"raises {type(e).__name__}: {str(e)[:200]}"
+            if what:
+                ctx.fail("oracle", key, f"{m}_{d}_{s}: AngularGrid({req}, method={m!r}, cache={cache}): {what}",
+                         witness={"method": m, "degree": d, "size": s, "request": req, "cache": cache},
+                         snippet=EVERY_FILE_SNIPPET.format(m=m, d=d, s=s, folder=DIRS[m], req=req, cache=cache))
+                break
+    for c in ("LEBEDEV_CACHE", "SPHERICAL_CACHE", "MAX_DET_CACHE", "AHRENS_BEYLKIN_CACHE"):
+        getattr(ang, c, {}).clear()
+
+
+def _oracle_arguments(ctx: Ctx, ang):
+    """class 15 (and 20): every documented argument combination on the smallest grids of every method (2, 4, 6 ... points:
+    fewer points than columns) and on one seed-chosen grid: positional / keyword degree, omitted / None / explicit default for
+    every parameter, degree and size given together (the constructor documents that the size wins)."""
+    tabs = _tables(ang)
+    for m in METHODS:
+        tab = tabs[m]
+        smallest = sorted(tab)[:3]
+        d50, s50 = _resolve(tab, degree=50)              # the default degree
+        mk = "" if m == "lebedev" else f", method={m!r}"
+        lines = ["clear_caches()"] if ctx.rng.random() < 0.5 else []
+        n = 0
+        for d in smallest + [ctx.rng.choice([k for k in tab if tab[k] <= 1500 and (m, k) not in BROKEN_FILES])]:
+            if (m, d) in BROKEN_FILES:
+                continue
+            s = tab[d]
+            other_d = ctx.rng.choice([k for k in tab if k != d])
+            forms = [f"{d}", f"degree={d}", f"{d}, size=None", f"degree={d}, size=None, cache=True", f"None, size={s}", f"degree=None, size={s}",
+                     f"size={s}", f"degree={other_d}, size={s}", f"{other_d}, size={s}, cache=False", f"50, size={s}", f"size={s}, cache=True, degree=50",
+                     f"size={s}, degree={d}", f"cache=False, size={s}", f"degree={d}, cache=False"]
+            ctx.rng.shuffle(forms)
+            for f in forms:
+                for meth in ([f", method={m!r}"] if m != "lebedev" else ["", ", method='lebedev'"]):
+                    lines.append(f"a{n} = AngularGrid({f}{meth})")
+                    label = f"AngularGrid({f}{meth})"
+                    lines.append(f"check(a{n}, {m!r}, {d}, {s}, {label!r})")
+                    n += 1
+        if (m, d50) not in BROKEN_FILES:
+            for f in (["AngularGrid()", "AngularGrid(cache=False)", "AngularGrid(50)", "AngularGrid(degree=50, size=None, cache=True, method='lebedev')"] if m == "lebedev"
+                      else [f"AngularGrid(method={m!r})", f"AngularGrid(method={m!r}, cache=False)", f"AngularGrid(size=None, method={m!r})"]):
+                lines.append(f"a{n} = {f}")
+                lines.append(f"check(a{n}, {m!r}, {d50}, {s50}, {f!r})")
+                n += 1
+        _run_history(ctx, lines, f"angular.AngularGrid:{m}:arguments", "arguments:" + m, ["arguments", m, lines])
+    for c in ("LEBEDEV_CACHE", "SPHERICAL_CACHE", "MAX_DET_CACHE", "AHRENS_BEYLKIN_CACHE"):
+        getattr(ang, c, {}).clear()
+
+
+KIND_SNIPPET = """import warnings; warnings.filterwarnings('ignore')
+import numpy as np
+from scipy.special import sph_harm_y
+from grid.angular import AngularGrid
+g = AngularGrid(degree={d}, method={m!r}, cache=False)
+x, y, z = g.points.T
+Y = sph_harm_y({l}, {mm}, np.arccos(np.clip(z, -1, 1)), np.arctan2(y, x))          # complex harmonic Y_({l},{mm})
+v = {expr}
+got = g.integrate(*v)
+want = np.sum(g.weights * np.prod([np.asarray(a, dtype=complex) for a in v], axis=0))       # the float64 / complex128 quadrature sum
+assert abs(complex(got) - complex(want)) <= {tol} and abs(complex(want) - {exact}) <= {tol}, (got, want, {exact})
+"""
+
+
+def _oracle_value_kinds(ctx: Ctx, ang):
+    """class 17 (labelled extension: the property speaks of the real harmonics; integration is linear, so the complex ones
+    and other value kinds of the same data must give the same numbers): g.integrate of complex128 / complex64 / float32 /
+    long double / integer / boolean function values on shipped grids against the float64 (complex128) quadrature sum and the
+    exact value sqrt(4 pi) delta_l0 resp. delta_(l l') delta_(m m')."""
+    from scipy.special import sph_harm_y
+    tabs = _tables(ang)
+    pool = [(m, d) for m in METHODS for d, s in tabs[m].items() if 2 <= d <= 20 and (m, d) not in BROKEN_FILES]
+    for m, d in ctx.rng.sample(pool, ctx.n(6, 24)) + [("spherical", 1), ("maxdet", 1)]:
+        g = load(ang, m, d)
+        x, y, z = g.points.T
+        pol, az = np.arccos(np.clip(z, -1, 1)), np.arctan2(y, x)
+        l = ctx.rng.randint(0, d)
+        mm = ctx.rng.randint(-l, l)
+        l2 = ctx.rng.randint(0, d - l)
+        m2 = ctx.rng.randint(-l2, l2)
+        Y, Y2 = sph_harm_y(l, mm, pol, az), sph_harm_y(l2, m2, pol, az)
+        cases = [("complex128", "(Y,)", 1e-9, math.sqrt(FOUR_PI) if l == 0 else 0.0),
+                 ("complex64", "(Y.astype(np.complex64),)", 2e-5, math.sqrt(FOUR_PI) if l == 0 else 0.0),
+                 ("float32", "(Y.real.astype(np.float32),)", 2e-5, None),
+                 ("longdouble", "(Y.imag.astype(np.longdouble),)", 1e-9, None),
+                 ("conj-times", "(np.conj(Y), sph_harm_y(%d, %d, np.arccos(np.clip(z, -1, 1)), np.arctan2(y, x)))" % (l2, m2), 1e-9, 1.0 if (l, mm) == (l2, m2) else 0.0),
+                 ("int", "(np.ones(g.size, dtype=np.int64), Y)", 1e-9, math.sqrt(FOUR_PI) if l == 0 else 0.0),
+                 ("bool", "(np.ones(g.size, dtype=bool),)", 1e-9, FOUR_PI),
+                 ("mixed", "(Y.real.astype(np.float32), np.ones(g.size, dtype=np.int32), np.ones(g.size, dtype=np.complex128))", 2e-5, None)]
+        # on an exact rule all of these are ~0 (or the norm) whatever is done to the values; the same kinds once more with a random real
+        # factor f in [0.5, 2] per node (the integrand f Y is not band-limited: the sums are O(0.1) complex numbers)
+        seed_f = ctx.rng.randrange(2 ** 31)
+        cases += [(k + "-modulated", "(np.random.default_rng(%d).uniform(0.5, 2.0, g.size),) + " % seed_f + e, t, None) for k, e, t, _ in cases]
+        for kind, expr, tol, exact in cases:
+            ctx.count(["value-kind", m, d, l, mm, kind], nontrivial=True, tag="value-kind:" + kind)
+            v = eval(expr, {"np": np, "Y": Y, "g": g, "sph_harm_y": sph_harm_y, "z": z, "y": y, "x": x})
+            try:
+                got = complex(g.integrate(*v))
+            except Exception as e:
+                got = f"raises {type(e).__name__}: {str(e)[:200]}"
+            want = complex(np.sum(g.weights * np.prod([np.asarray(a, dtype=complex) for a in v], axis=0)))
+            ex = want if exact is None else exact
+            if isinstance(got, str) or not abs(got - want) <= tol or not abs(want - ex) <= tol:
+                ctx.fail("oracle", f"angular.AngularGrid:integrate:{kind}",
+                         f"{m} degree {d}: integrate of {kind} values of Y_({l},{mm}){' x conj Y_(%d,%d)' % (l2, m2) if kind == 'conj-times' else ''} gives {got!r}; "
+                         f"quadrature sum in complex128 {want!r}, exact {ex!r}",
+                         witness={"method": m, "degree": d, "l": l, "m": mm, "kind": kind},
+                         snippet=KIND_SNIPPET.format(m=m, d=d, l=l, mm=mm, expr=expr, tol=tol, exact=repr(ex)))
+
+
+HARM_SNIPPET = """import warnings; warnings.filterwarnings('ignore')
+import numpy as np
+from scipy.special import sph_harm_y
+from grid.angular import AngularGrid
+from grid.utils import convert_cart_to_sph, generate_real_spherical_harmonics
+g = AngularGrid(degree={d}, method={m!r}, cache=False)
+p = g.points[{i}:{i} + 1]
+sph = convert_cart_to_sph(p)
+lib = np.asarray(generate_real_spherical_harmonics({l}, sph[:, 1], sph[:, 2]), dtype=float)[{l} ** 2:({l} + 1) ** 2, 0]
+c = sph_harm_y({l}, np.arange(0, {l} + 1), np.arccos(np.clip(p[0, 2], -1, 1)), np.arctan2(p[0, 1], p[0, 0]))   # independent: SciPy's complex harmonics
+sign = (-1.0) ** np.arange(1, {l} + 1)
+want = sorted(np.concatenate([[c[0].real], np.sqrt(2) * sign * c[1:].real, np.sqrt(2) * sign * c[1:].imag]))
+assert np.allclose(sorted(lib), want, rtol=0, atol=1e-9), 'the real harmonics of degree {l} at node {i} of {m}_{d} are not the real and imaginary parts of the complex ones'
+"""
+
+
+def _harmonics_at(ctx: Ctx, ang, m, d, l):
+    """the harmonics the library integrates, at degree l on three nodes of the shipped grid, against SciPy's complex harmonics
+    (as multisets of the 2l+1 values, so that no row convention enters)"""
+    from scipy.special import sph_harm_y
+    ut = importlib.import_module("grid.utils")
+    g = load(ang, m, d)
+    for i in sorted(ctx.rng.sample(range(g.size), min(3, g.size))):
+        p = g.points[i:i + 1]
+        sph = ut.convert_cart_to_sph(p)
+        lib = np.asarray(ut.generate_real_spherical_harmonics(l, sph[:, 1], sph[:, 2]), dtype=float)[l * l:(l + 1) ** 2, 0]
+        c = sph_harm_y(l, np.arange(0, l + 1), np.arccos(np.clip(p[0, 2], -1, 1)), np.arctan2(p[0, 1], p[0, 0]))
+        sign = (-1.0) ** np.arange(1, l + 1)
+        want = np.sort(np.concatenate([[c[0].real], np.sqrt(2) * sign * c[1:].real, np.sqrt(2) * sign * c[1:].imag]))
+        if not np.allclose(np.sort(lib), want, rtol=0, atol=1e-9):
+            ctx.fail("oracle", "utils.generate_real_spherical_harmonics:on-shipped-nodes",
+                     f"the real harmonics of degree {l} which the library integrates on {m} degree {d} differ at node {i} {p[0].tolist()} from SciPy's "
+                     f"(largest difference of the sorted values {float(np.abs(np.sort(lib) - want).max()):.3e})",
+                     witness={"method": m, "degree": d, "l": l, "node": i}, snippet=HARM_SNIPPET.format(m=m, d=d, l=l, i=i))
+            return
+
+
 def oracle_at(ctx: Ctx, failure):
     """A correspondence disagreement that names a file: the property itself is evaluated on that file (complete check by the
     native oracle, the exact check when the file is carried, and the construction routes)."""
     ang = importlib.import_module("grid.angular")
     w = failure.witness if isinstance(failure.witness, dict) else {}
+    if w.get("kind") == "library-harmonics" and w.get("l", -1) >= 0:
+        _harmonics_at(ctx, ang, w["method"], int(w["degree"]), int(w["l"]))
     m, d = w.get("method"), w.get("degree")
     if m is None or d is None:
         import re
@@ -856,10 +1223,22 @@ def oracle_at(ctx: Ctx, failure):
 
 def oracle(ctx: Ctx, budget: str):
     ang = importlib.import_module("grid.angular")
-    _oracle_call_paths(ctx, ang)
-    _oracle_histories(ctx, ang)
-    _oracle_fresh_process(ctx, ang)
-    _oracle_carried_exact(ctx, ang)
+    _parts(ctx, "oracle", [
+        # implementation only (no driver, no translator)
+        ("every-file", lambda: _oracle_every_file(ctx, ang)),
+        ("call-paths", lambda: _oracle_call_paths(ctx, ang)),
+        ("histories", lambda: _oracle_histories(ctx, ang)),
+        ("arguments", lambda: _oracle_arguments(ctx, ang)),
+        ("fresh-process", lambda: _oracle_fresh_process(ctx, ang)),
+        ("value-kinds", lambda: _oracle_value_kinds(ctx, ang)),
+        # consults the translator's selection
+        ("carried-exact", lambda: _oracle_carried_exact(ctx, ang)),
+        # needs the driver
+        ("files", lambda: _oracle_files(ctx, ang, budget)),
+    ])
+
+
+def _oracle_files(ctx: Ctx, ang, budget: str):
     files = all_files(ang)
     everything = ctx.thorough or budget == "large"
     sel = select(ctx, files, everything)
@@ -906,6 +1285,13 @@ def _judge_file(ctx: Ctx, ang, job, rep):
     m, d, s = job[:3]
     name = f"{m}_{d}_{s}"
     key = f"angular:{name}"
+    if "error" in rep:
+        if rep.get("library"):
+            ctx.fail("oracle", key + ":raises", f"{name}: AngularGrid(degree={d}, method={m!r}, cache=False) raises {rep['error']}",
+                     witness=_wit(rep), snippet=f"from grid.angular import AngularGrid\nAngularGrid(degree={d}, method={m!r}, cache=False)\n")
+        else:
+            ctx.fail("corr", "file:answer", f"{name}: the evaluation raised {rep['error']}", witness=rep.get("traceback"))
+        return 0.0
     if "err" not in rep:
         ctx.fail("corr", "file:answer", f"{name}: driver answered {rep['answer']}")
         return 0.0
